@@ -362,3 +362,51 @@ def c20(run):
     run.assumptions += [BOUNDED, STD_GUARD, "concatenation programs are generated from the TLC-emitted descriptors; the "
                         "macros are expanded inside const items, so rustc's const evaluator executes them",
                         "CStr error kinds are not compared (the property does not mention them)"]
+
+
+# ------------------------------------------------------------------------------------------- C15
+def _destructure_descs(run, tier):
+    out = vec("%s-Destructure.ndjson" % run.pid)
+    run.mc("MC_Destructure", "Destructure.quick.cfg", env={"OUT": out},
+           need_actions=("FieldCheck", "TypeAssert", "DropAssert", "Reads"), heap="4g", timeout=2000)
+    return out, [json.loads(l) for l in open(out)]
+
+
+@check("C15", rule="behaviours = distinct states of one or two containers (ArrayConsumer / ArrayBuilder of a drop-ledger "
+                    "element type, N = 0..3) reached by next / next_back / as_slice / clone / drop / assert_is_empty / "
+                    "push / build, with the exact set of dropped values compared at every state; plus one program per "
+                    "accepted destructure! descriptor (shape x arity x bind/_/rest patterns x flavour) run with ledger "
+                    "fields; non-trivial = at least one element")
+def c15(run):
+    import progs
+    import gen_destructure as gd
+    q = run.tier == "quick"
+    outs = []
+    for cfg in (["Ownership.n0.cfg", "Ownership.n1.cfg", "Ownership.n2.cfg", "Ownership.n3.cfg"] if q else
+                ["Ownership.n0.cfg", "Ownership.n1.cfg", "Ownership.n2.cfg", "Ownership.n3full.cfg"]):
+        out = vec("C15-%s.ndjson" % cfg[:-4])
+        if os.path.exists(out):
+            os.remove(out)
+        run.mc("MC_Ownership", cfg, env={"OUT": out}, heap="8g", timeout=3000)
+        outs.append(out)
+    run.sample_file(outs[2], k=2)
+    run.replay(outs, "Ownership state graphs")
+    path, descs = _destructure_descs(run, run.tier)
+    ps = progs.ProgSet(run, "C15-destructure", prelude=gd.LEDGER_PRELUDE)
+    for r in descs:
+        if r["verdict"] != "Accepted":
+            continue
+        flavors = ["plain", "typed"]
+        if r["shape"] == "braced":
+            flavors += ["packed"] + (["generic"] if r["n"] > 0 else [])
+        if r["shape"] == "tuple_struct" and r["n"] > 0:
+            flavors += ["generic"]
+        for fl in flavors:
+            body, exp = gd.runtime_case(r, fl)
+            ps.add(body, exp, dict(r, flavor=fl, mac="destructure!"))
+        body, exp = gd.const_case(r, "plain")
+        ps.add(body, exp, dict(r, flavor="const", mac="destructure!(const fn)"))
+    ps.execute()
+    run.samples.append({"descriptor": descs[len(descs) // 2]})
+    run.assumptions += [BOUNDED, "the drop ledger lives in the harness' element type (per-id created/dropped counts, "
+                        "12-byte payload derived from the id)", "panicking paths are not completed paths (no leak check)"]
